@@ -9,7 +9,7 @@ merged), and the answer of every access of every history is compared with the ea
 Because the model's answer does not depend on the history, this decides both halves of the property: the values are
 the eager ones, and no access changes what a later access returns.
 """
-import sys
+import sys, itertools
 from operator import attrgetter
 
 from vf.core import Check
@@ -56,7 +56,7 @@ def _mk_pred(pred, before: M.Tbl):
     if pred[0] == 'missing': return attrgetter('missing')
     _, key, j = pred
     if before.kind == 'dense':
-        c = before.headers.index(key) if isinstance(key, str) else key
+        c = before.headers[key] if isinstance(key, str) else key
         val = before.rows[j][c]
         return lambda row: row[key] == val
     val = before.rows[j][key]
@@ -124,7 +124,7 @@ def ops_for(t: M.Tbl, r, reduced=False):
     """Accesses valid on output row r of eager table t.  `reduced`: one representative per kind of access."""
     ops = []
     if t.kind == 'dense':
-        n, H = t.n, t.headers
+        n, H = t.n, (list(t.headers) if t.headers else None)
         idx = list(range(n))
         if reduced: idx = idx[-1:]
         ops += [['i', i] for i in idx]
@@ -161,7 +161,7 @@ def expect(t: M.Tbl, r, op):
             ind, tipe = t.label
             F = V[:ind] + V[ind + 1:]
         if k == 'i': return V[op[1]]
-        if k == 'h': return V[t.headers.index(op[1])]
+        if k == 'h': return V[t.headers[op[1]]]
         if k in ('list', 'copy'): return list(V)
         if k == 'len': return len(V)
         if k in ('eq', 'feats_eq'): return True
@@ -261,7 +261,7 @@ STAGE_CLASS = {'head': 'Head', 'headmap': 'Head', 'shead': 'Head', 'enc': 'Encod
 SRC_CLASS = {'dl': 'dense lists', 'dc': 'dense lists', 'sk': 'sparse dicts', 'si': 'sparse dicts', 'sc': 'sparse dicts',
              'ad': 'lazy ARFF dense', 'as': 'lazy ARFF sparse', 'aq': 'lazy ARFF dense', 'lz': 'LazyDense rows', 'lzs': 'LazySparse rows',
              'lzr': 'LazyDense rows', 'ae': 'lazy ARFF dense', 'aes': 'lazy ARFF sparse',
-             'adt': 'lazy ARFF dense', 'aet': 'lazy ARFF dense'}
+             'adt': 'lazy ARFF dense', 'aet': 'lazy ARFF dense', 'aq4': 'lazy ARFF dense'}
 SIMPLER_SRC = {'dc': ['dl'], 'aq': ['ad'], 'si': ['sk'], 'sc': ['sk'], 'as': ['sk'], 'lzs': ['sk', 'as'], 'lz': ['ad'], 'lzr': ['lz'], 'ae': ['ad'], 'aes': ['as'], 'adt': ['ad'], 'aet': ['ae', 'adt']}
 
 
@@ -304,7 +304,7 @@ class C13(Check):
     RULE = ('cases = (source table, pipeline, output row): 15 sources (dense lists, dense lists with a Categorical column, sparse '
             'dicts with str / int keys / a Categorical entry, ARFF dense, ARFF sparse with default-zero entries, ARFF dense with '
             'mixed quoting, LazyDense / LazySparse rows wired like ArffReader but with non-idempotent encoders and "?" / "" cells, a LazyDense table with another header order, ARFF dense / sparse tables whose cells are the values the lazy rows special-case: empty string quoted and bare, ?, quoted ?, a nominal level named ?, 0, None in numeric / string / nominal attributes, TAB-separated twins of the dense ARFF tables with the marker ? in a first / middle / last cell) x every pipeline of <=2 (thorough <=3) stages from the stage alphabet valid for the table shape '
-            '(HeadRows list / mapping, EncodeRows list / dict by index / dict by header, DropRows cols by index / by name / row '
+            '(HeadRows list / mapping in another order than the columns / PARTIAL mapping leaving a column unnamed / mapping giving one column TWO names, EncodeRows list / dict by index / dict by header, DropRows cols by index / by name / row '
             'predicate by index / by name / missing, LabelRows by index / by name with c,r,m, EncodeCatRows onehot / '
             'onehot_tuple / string) x every output row, simplest first; inside a case EVERY access history of length <=2 over the '
             'full access alphabet of that row (every position, every header name / key, list, len, ==, !=, copy, items, keys, '
@@ -313,7 +313,9 @@ class C13(Check):
             'the real pipeline and every answer is compared with the eager model.  PLUS re-use cases = (table 1, table 2, pipeline valid on both): ONE set of real filter objects is applied to table 1, to a different table 2 '
             '(unheaded / headed / other header order / other names / sparse keyed by name or by column number / the same table for the Categorical ones) and to table 1 again, '
             'and after every application every access of the full alphabet on every output row is compared with the eager model of that table.  '
-            'A case is non-trivial when the row object is a lazy view (not a list/dict) or an EncodeCatRows stage rewrote it; every re-use case (>=1 stage) is non-trivial')
+            'PLUS cross-row order cases = for every lazy file (ARFF dense / sparse incl. a 4-line file whose lines have no quote, both quote kinds, single quotes, double quotes; LazyDense / LazySparse) EVERY order of first-accessing its rows (by list / by one item / by len), after which every access of the full alphabet on every row is compared with the eager table.  '
+            'PLUS feats cases = the feats of every labelled dense pipeline fed to one more stage (EncodeRows list / dict by index / dict by a header that keeps its position, DropRows by index / by such a header), i.e. a stage that sees rows whose header map has more entries than the row has columns.  '
+            'A case is non-trivial when the row object is a lazy view (not a list/dict) or an EncodeCatRows stage rewrote it; every re-use case (>=1 stage), every feats case and every order case with a non-natural order is non-trivial')
     ASSUMPTIONS = [
         'only valid keys are accessed (positions 0..len-1, header names / keys present in the eager row); negative positions, dropped or unknown names are not constrained',
         'LabelRows is the last stage of a pipeline (as everywhere in coba); feats is accessed by position / key, iteration, len, == only (by-header access on feats is not demanded)',
@@ -325,6 +327,8 @@ class C13(Check):
         'a row predicate is evaluated by DropRows on the upstream row; predicates are equality tests on one cell or attrgetter("missing") on ARFF rows',
         'ARFF cell conventions are coba\'s: ? is missing (None) unless the nominal attribute declares a level ?, an empty cell is "" in a string attribute and None in a numeric / nominal one; an encoder that accepts "?" or "" is applied to it',
         'row.missing of a lazy ARFF row = some cell of the written data line is the bare marker ? (also where a nominal attribute declares a level ?); a row holding a QUOTED ? is left open: its flag is not read and DropRows(missing) is not applied to that table (C12 lists that question)',
+        'a header map may name only some columns and may give one column several names: row[name], EncodeRows / DropRows / LabelRows by name act on the column the name maps to; an EncodeRows dict does not address one column through two of its keys',
+        'a stage applied to row.feats and naming a column by header may act on that column or leave the table alone (coba keeps no header support on feats); length, positions and every other column are exact',
         're-use cases contain only stages whose parameters do not depend on one table\'s cells (no cell-equality row predicates); a re-use answer is a violation only if fresh filter objects give the eager answer for the same access',
         '"RuntimeError: generator ignored GeneratorExit" raised inside LazyDense._enc_all when an iteration is abandoned at a ? / "" cell is reported by CPython as unraisable, changes no value and is only counted',
     ]
@@ -336,7 +340,7 @@ class C13(Check):
                   '"no access changes later answers" are decided for every history below the bound; filter objects are additionally re-used across two different tables (table 1, table 2, table 1) and every answer compared with the eager table of its own table.')
     LEVEL_NOTE = ('small-scope: tables of 2-3 rows x 3 columns, <=3 stages, histories <=3; only valid keys; LabelRows last; '
                   'EncodeCatRows on materialised rows only')
-    MIN_NONTRIVIAL = {'quick': 8000, 'thorough': 80000}
+    MIN_NONTRIVIAL = {'quick': 12000, 'thorough': 100000}
     CASE_TIMEOUT = 60
 
     # -------------------------------------------------------------- harness hygiene
@@ -382,6 +386,17 @@ class C13(Check):
                 yield {'src': src, 'stages': stages, 'row': None}
             for r in range(len(t.rows)):
                 yield {'src': src, 'stages': stages, 'row': r}
+        # cross-row access orders: every order of first-accessing the rows of one lazy file
+        for src in M.ORDER_SOURCES:
+            n = len(M.source_model(src).rows)
+            for perm in itertools.permutations(range(n)):
+                for touch in ('list', 'item', 'len'):
+                    yield {'order': src, 'perm': list(perm), 'touch': touch}
+        # row.feats of a labelled dense pipeline as the input of one more stage
+        for src, stages, t in self.pipelines(tier):
+            if t.label is None or t.kind != 'dense' or not t.rows: continue
+            for then in self.feats_then_options(t):
+                yield {'feats': src, 'stages': stages, 'then': then}
         # re-use: the same filter objects on table 1, a different table 2, table 1 again
         maxst = 2 if tier == 'quick' else 3
         for nst in range(1, maxst + 1):
@@ -407,6 +422,8 @@ class C13(Check):
         n0 = C13._genexit
         try:
             if 'reuse' in case: return self.run_reuse(case, acc)
+            if 'order' in case: return self.run_order(case, acc)
+            if 'feats' in case: return self.run_feats(case, acc)
             return self._run_case(case, acc)
         finally:
             if C13._genexit != n0: acc.count('unraisable_generator_ignored_GeneratorExit', C13._genexit - n0)
@@ -452,9 +469,145 @@ class C13(Check):
             row = first_rows[r]
             lazy = not isinstance(row, (list, tuple, dict))
             if lazy or any(s[0] == 'cat' for s in stages): acc.mark_nontrivial()
-            acc.outcome((type(row).__name__, t.kind, t.n if t.kind == 'dense' else len(t.rows[r]), t.headers is not None, t.label is not None))
+            acc.outcome((type(row).__name__, t.kind, t.n if t.kind == 'dense' else len(t.rows[r]), (len(t.headers) if t.headers is not None else -1), t.label is not None))
             acc.count('rows_' + type(row).__name__)
         acc.count('histories', len(hs))
+
+    # -------------------------------------------------------------- cross-row access orders of one lazy file
+    def run_order(self, case, acc):
+        src, perm, touch = case['order'], case['perm'], case['touch']
+        plan = Plan(src, [])
+        t = plan.final
+        dense = t.kind == 'dense'
+        acc.count('order_cases'); acc.states += 1; acc.traces += 1
+        if perm != sorted(perm): acc.mark_nontrivial()
+        try:
+            rows = plan.build()
+        except Exception:   # noqa  (the ordinary cases report a table that cannot be read)
+            return
+        if len(rows) != len(t.rows): return
+        for r in perm:                      # first access of every row, in the order of the case
+            try:
+                row = rows[r]
+                if touch == 'len': len(row)
+                elif touch == 'item': row[0 if dense else _sorted_keys(t.rows[r])[0]]
+                else: list(row) if dense else dict(row.items())
+            except Exception:   # noqa  (judged below, access by access)
+                pass
+            acc.transitions += 1
+        for r in range(len(rows)):
+            for op in ops_for(t, r):
+                if op[0] == 'other': continue
+                want = expect(t, r, op)
+                acc.transitions += 1
+                try:
+                    got = access(t, r, rows, op); mode = None if same(got, want) else 'wrong value'
+                except Exception as e:   # noqa
+                    got, mode = repr(e), f'raises {type(e).__name__}'
+                if mode is None: continue
+                f1, _ = run_history(plan, r, [op])
+                if not f1: mode = f'depends on the order in which the rows of the file were first accessed ({mode})'
+                key = f'{type(rows[r]).__name__}|{FAMILY[op[0]]}: {mode}|no stage on {SRC_CLASS[src]}'
+                what = (f'{M.SRC_KIND[src]}: after first-accessing the rows in the order {perm} (by {touch}), row {r}: the access {op} gave '
+                        f'{got!r}, the eager table gives {want!r}')
+                acc.violation(key, what, case, order=(0, len(perm), acc._cur[0] if acc._cur else 0))
+                return
+        acc.outcome(('order', src, len(perm)))
+
+    # -------------------------------------------------------------- row.feats as the input of one more stage
+    @staticmethod
+    def feats_then_options(t):
+        ind = t.label[0]
+        m = t.n - 1
+        if m < 1: return []
+        out = [['enc', 'list', [['I', 'A', 'B'][i % 3] for i in range(m)]], ['enc', 'dict', [[0, 'A']]]]
+        if m >= 2: out += [['enc', 'dict', [[m - 1, 'B']]], ['drop', [0], None]]
+        before = [h for h, i in (t.headers or {}).items() if i < ind]       # names whose column keeps its position in feats
+        if before:
+            out.append(['enc', 'dict', [[before[0], 'A']]])
+            if m >= 2: out.append(['drop', [before[0]], None])
+        return out
+
+    @staticmethod
+    def _feats_alternatives(t, then):
+        """Eager tables acceptable for `then` applied to the feats of labelled table t.  A stage that names a column by
+        header may act on that column or (coba keeps no header support on feats) leave the table alone; everything
+        else is exact."""
+        ind = t.label[0]
+        F = [r[:ind] + r[ind + 1:] for r in t.rows]
+        by_name = None
+        if then[0] == 'enc':
+            if then[1] == 'list': fs = {i: ENC[e] for i, e in enumerate(then[2])}
+            else:
+                (kk, e), = then[2]
+                if isinstance(kk, str): by_name = True; kk = t.headers[kk]
+                fs = {kk: ENC[e]}
+            alt = [[fs[i](v) if i in fs else v for i, v in enumerate(r)] for r in F]
+        else:
+            c = then[1][0]
+            if isinstance(c, str): by_name = True; c = t.headers[c]
+            alt = [r[:c] + r[c + 1:] for r in F]
+        return [alt, F] if by_name else [alt]
+
+    @staticmethod
+    def _feats_eval(src, stages, then):
+        """-> None when the real stage over the real feats equals one acceptable eager table in every access, else
+        (access text, mode, got, want) of the first access that differs from the primary eager table."""
+        plan = Plan(src, stages)
+        t = plan.final
+        alts = C13._feats_alternatives(t, then)
+        rows = plan.build()
+        feats = [row.feats for row in rows]
+        first = None
+        try:
+            out = list(make_filter(then, None).filter(feats))
+        except Exception as e:   # noqa
+            return ('applying the stage', f'raises {type(e).__name__}', repr(e), f'{len(alts[0])} rows')
+        for alt in alts:
+            bad = None
+            if len(out) != len(alt): bad = ('number of rows', 'wrong value', len(out), len(alt))
+            for r, want in enumerate(alt):
+                if bad: break
+                o = out[r]
+                checks = [('len(row)', lambda: len(o), len(want)), ('list(row)', lambda: list(o), list(want)),
+                          ('row == eager row', lambda: o == list(want), True), ('row.copy()', lambda: list(o.copy()), list(want))]
+                checks += [(f'row[position]', (lambda i=i: o[i]), want[i]) for i in range(len(want))]
+                for text, f, w in checks:
+                    try:
+                        g = f()
+                        if not same(g, w): bad = (text, 'wrong value', g, w); break
+                    except Exception as e:   # noqa
+                        bad = (text, f'raises {type(e).__name__}', repr(e), w); break
+            if bad is None: return None
+            if first is None: first = bad
+        return first
+
+    def run_feats(self, case, acc):
+        src, stages, then = case['feats'], case['stages'], case['then']
+        acc.count('feats_cases'); acc.states += 1; acc.traces += 1; acc.mark_nontrivial()
+        try:
+            bad = self._feats_eval(src, stages, then)
+        except Exception:   # noqa  (the labelled pipeline itself fails: reported by the ordinary cases)
+            return
+        acc.outcome(('feats', STAGE_CLASS[then[0]], bad is None))
+        if bad is None: return
+        cur = list(stages)
+        changed = True
+        while changed and len(cur) > 1:             # drop stages before the label while the same access fails the same way
+            changed = False
+            for i in range(len(cur) - 1):
+                trial = cur[:i] + cur[i + 1:]
+                try:
+                    if then not in self.feats_then_options(Plan(src, trial).final): continue
+                    b2 = self._feats_eval(src, trial, then)
+                except Exception:   # noqa
+                    continue
+                if b2 and b2[0] == bad[0] and b2[1] == bad[1]:
+                    cur = trial; bad = b2; changed = True; break
+        text, mode, got, want = bad
+        key = f'row.feats as the input of {STAGE_CLASS[then[0]]}|{text}: {mode}|{chain_class(src, cur)}'
+        what = (f'{chain_text(src, cur)}, then {M.stage_kind(then)} over the rows\' feats: {text} gave {got!r}, the eager table gives {want!r}')
+        acc.violation(key, what, {'feats': src, 'stages': cur, 'then': then}, order=(len(cur), 8, acc._cur[0] if acc._cur else 0))
 
     # -------------------------------------------------------------- re-used filter objects
     STEPS = [(0, 'first table'), (1, 'second table'), (0, 'first table again')]
